@@ -56,6 +56,17 @@ def cases(tier, seed):
                             if init != 'none' and sd > 0:
                                 continue
                             yield {'kind': 'mv', 'fn': 'fast_matvec', 'M': M, 'N': N, 'ra': ra, 'rx': rx, 'fam': fam, 'dt': 'f64', 'eps': eps, 'seed': sd, 'init': init}
+    # full product preconditioner x local path x class x eps on systems whose local problems are large enough for the
+    # (preconditioned) iterative path to matter
+    for sizes in ('546', '263'):
+        for cls in ('lap', 'dd', 'cd'):
+            for prec in (None, 'c', 'r'):
+                for solver in ('gmres', 'direct'):
+                    for eps in (1e-6, 1e-10):
+                        for x0 in ('none', 'rank2'):
+                            if x0 == 'rank2' and (eps == 1e-10 or sizes == '263'):
+                                continue
+                            yield {'kind': 'solve', 'order': 3, 'sizes': sizes, 'cls': cls, 'opr': 2, 'rhs': 2, 'eps': eps, 'prec': prec, 'solver': solver, 'x0': x0, 'seed': 0}
     for cfg in c12._configs(2 if tier == 'quick' else 3):
         if cfg['solver'] == 'bicgstab':
             continue      # a Python-only local solver (the compiled solver has GMRES only); C12 covers it
